@@ -61,6 +61,14 @@ EXTRACTS = [
     # the `bestmove` line of the writer thread in Search::spawn (closure body: cannot be called); `println!` is bound to a buffer sink
     dict(file="weechess-engine/src/uci.rs", marker="if let Some(m) = best_line.first() {", out="uci_bestmove_extracted.rs",
          header="pub fn uci_print_bestmove(m: &Move) {"),
+    # the head of Searcher::analyze_iterative (everything before the iterative-deepening loop; the loop reaches rayon, which crashes the
+    # Kani compiler): search memory taken over or created, root hash computed and recorded
+    dict(kind="fn_range", file="weechess-engine/src/searcher.rs", scopes=["impl Searcher"], fn="analyze_iterative",
+         marker="let max_depth = max_depth.unwrap_or(usize::MAX);", end_marker="for depth in 0..max_depth {", out="analyze_iterative_head_extracted.rs",
+         header="#[allow(unused_mut, unused_variables, unused_assignments)]\npub fn analyze_iterative_head(game_state: State, rng: RandomNumberGenerator, max_depth: Option<usize>, "
+                "previous_artifact: Option<SearchArtifact>) -> (ZobristHasher, TranspositionTableAccess, StateHistory, Hash) {",
+         footer="let _pin_type: &Option<Move> = &best_mv; // the local's type is inferred from the loop, which is not extracted\n"
+                "(hasher, transpositions, state_history, game_state_hash)\n"),
     # the `ucinewgame` arm of the UCI command loop, as a function over the two loop-local variables it can touch
     dict(file="weechess-engine/src/uci.rs", marker='Some((&"ucinewgame", _)) => {', out="ucinewgame_extracted.rs",
          header="#[allow(unused_mut, unused_variables, unused_assignments)]\npub fn ucinewgame_arm<S: SearchLike>(mut current_search: Option<S>, "
@@ -426,11 +434,14 @@ PROPS["C17"] = dict(
           "symbolic position, bounds, depths", functions=["Searcher::analyze_recursive"], timeout=2400),
         K("c17", "c17_root_is_not_a_repetition", desc="at current_depth == 0 the history is not consulted; the table is probed "
           "with the position's hash and a deep exact entry is returned", functions=["Searcher::analyze_recursive"], timeout=2400),
+        K("c17", "c17_root_hash_is_recorded", desc="the head of analyze_iterative (everything before the iterative-deepening loop, extracted verbatim): "
+          "with a search memory handed over, the root position's hash -- computed by the memory's hasher -- is recorded in the memory's history "
+          "exactly once before the first iteration", functions=["Searcher::analyze_iterative (head, extracted)"], timeout=2400),
     ],
     assumptions=[],
     assumed_contracts=["ZobristHasher::hash (C08)", "StateHistory::{lookup,increment} are a map from hash to count (std HashMap, not executed)"],
-    not_claimed=["analyze_iterative recording the root hash before the first iteration: any harness reaching analyze_iterative "
-                 "crashes the Kani 0.68 compiler (catch_unwind intrinsic via rayon), checked by reading only",
+    not_claimed=["the iterative-deepening loop of analyze_iterative itself: any harness reaching it crashes the Kani 0.68 compiler (catch_unwind "
+                 "intrinsic via rayon); its head (memory taken over, root hash recorded) is extracted and under contract",
                  "the consequence in the property text (the search still reports a win and avoids the repeating move): a statement "
                  "about the whole search, not a function contract"],
     technique="Kani/CBMC: contract on the early return of analyze_recursive with hasher, history and table replaced by their contracts",
